@@ -359,14 +359,19 @@ Proof.
   unfold fhex_match. destruct r as [|a t]; [discriminate|].
   destruct (N.eqb_spec a 48) as [->|Hne].
   - destruct (NumRe.span (in_set [120; 88]%N) t) as [xs r]. destruct (nonnil xs); [|discriminate].
-    destruct (NumRe.span (ishex ud) r) as [h r1]. destruct (nonnil h); [|discriminate].
-    set (cr := match r1 with 46%N :: r2 => _ | _ => _ end).
-    assert (Hc : fst cr <> []).
-    { unfold cr. destruct r1 as [|b r2]; [discriminate|].
-      destruct b as [|pb]; [discriminate|].
-      repeat (destruct pb as [pb|pb|]; try discriminate).
-      destruct (NumRe.span (ishex ud) r2) as [f r2']. destruct (nonnil f); discriminate. }
-    destruct cr as [c0 r3]. cbn [fst] in Hc.
+    destruct (NumRe.span (ishex ud) r) as [h r1].
+    match goal with |- match ?cr0 with Some _ => _ | None => None end = _ -> _ => set (cr := cr0) end.
+    assert (Hc : forall c0 r3, cr = Some (c0, r3) -> c0 <> []).
+    { unfold cr. intros c0 r3. destruct (nonnil h).
+      - destruct r1 as [|b r2]; [intros H; inversion H; discriminate|].
+        destruct b as [|pb]; [intros H; inversion H; discriminate|].
+        repeat (destruct pb as [pb|pb|]; try (intros H; inversion H; discriminate)).
+        destruct (NumRe.span (ishex ud) r2) as [f r2']. intros H; inversion H; discriminate.
+      - destruct r1 as [|b r2]; [discriminate|].
+        destruct b as [|pb]; [discriminate|].
+        repeat (destruct pb as [pb|pb|]; try discriminate).
+        destruct (NumRe.span (ishex ud) r2) as [f r2']. destruct (nonnil f); [|discriminate]. intros H; inversion H; discriminate. }
+    destruct cr as [[c0 r3]|]; [|discriminate]. specialize (Hc c0 r3 eq_refl).
     destruct (exp_match _ _ _ _) as [[e0 r4]|]; intros H; inversion H; subst; exact Hc.
   - destruct a as [|pa]; [discriminate|].
     repeat (destruct pa as [pa|pa|]; try discriminate). congruence.
@@ -528,7 +533,7 @@ Proof.
         { eapply parse_whitespace_none; [exact Er|]. rewrite <- (run_parser_whitespace uw ud).
           eapply try_parsers_none; [exact E|apply whitespace_in_parsers]. }
         cbv zeta. cbn [step_post item_lo item_hi].
-        set (d := mkdiag _ _ _ _).
+        set (d := from_name _ _ _).
         assert (Hx : advance 1 (set_pos (line x) (col x + 1) (add_err d x)) = raw_advance 1 (add_err d x)).
         { unfold raw_advance. cbn [rest line col add_err]. rewrite Er. cbn [firstn].
           unfold pos_after. cbn [fold_left]. rewrite (adv_plainc _ _ _ Pc). reflexivity. }
